@@ -1,5 +1,6 @@
 (** Model of src/eval_number/ast.rs::eval (repaired tree). *)
 From Coq Require Import List ZArith NArith Bool.
+From Flocq Require IEEE754.BinarySingleNaN.
 From SC Require Import Base.Res Base.F64 Base.RustInt Base.Oracle Base.Num Lang.Syntax Eval.Common Eval.EvalF64.
 Import ListNotations.
 Local Open Scope Z_scope.
@@ -127,27 +128,59 @@ Section EvalNum.
     | _ => Err
     end.
 
+  (** compare(a, b): exact numeric comparison, None when a NaN is involved *)
+  Definition f_2p63 : f64 := f64_of_Z (2 ^ 63).
+  Definition f_m2p63 : f64 := f64_of_Z (- 2 ^ 63).
+  Definition int_float (i : Z) (f : f64) : option comparison :=
+    if fis_nan f then None
+    else if fge f f_2p63 then Some Lt
+    else if flt f f_m2p63 then Some Gt
+    else
+      let whole := ftrunc f in
+      match Z.compare i (f64_to_i64 whole) with
+      | Eq => BinarySingleNaN.Bcompare fzero (fsub f whole)
+      | c => Some c
+      end.
+  Definition ncmp (a b : number) : option comparison :=
+    match a, b with
+    | Int x, Int y => Some (Z.compare x y)
+    | Flt x, Flt y => BinarySingleNaN.Bcompare x y
+    | Int x, Flt y => int_float x y
+    | Flt x, Int y => option_map CompOpp (int_float y x)
+    end.
+
   (** Min / Max keep the *Number* (variant included) of the winning argument *)
-  Fixpoint pick (better : f64 -> f64 -> bool) (acc : option number) (vs : list number) : option number :=
+  Fixpoint pick (want : comparison) (acc : option number) (vs : list number) : option number :=
     match vs with
     | [] => acc
     | r :: vs' =>
         match acc with
-        | None => pick better (Some r) vs'
-        | Some l => pick better (Some (if better (nf l) (nf r) then l else r)) vs'
+        | None => pick want (Some r) vs'
+        | Some l => pick want (Some (match ncmp l r with
+                                     | Some c => if match c, want with Lt, Lt | Gt, Gt => true | _, _ => false end then l else r
+                                     | None => r
+                                     end)) vs'
         end
     end.
 
-  Definition sortN : list number -> list number := isort (fun n => total_key (nf n)).
+  (** stable insertion sort with compare(a,b).unwrap_or(Equal) *)
+  Definition nle (x y : number) : bool := match ncmp x y with Some Gt => false | _ => true end.
+  Fixpoint ninsert (x : number) (l : list number) : list number :=
+    match l with
+    | [] => [x]
+    | y :: l' => if nle x y then x :: l else y :: ninsert x l'
+    end.
+  Fixpoint sortN (l : list number) : list number :=
+    match l with [] => [] | x :: l' => ninsert x (sortN l') end.
 
   Definition agg_num (g : aggop) (vs : list number) : res number :=
     let len := length vs in
     match g with
     | AMin => if (1 <? len)%nat then
-                match pick flt None vs with Some r => Ok r | None => Panic end
+                match pick Lt None vs with Some r => Ok r | None => Panic end
               else match vs with v :: _ => Ok v | [] => Ok (Int 0) end
     | AMax => if (1 <? len)%nat then
-                match pick fgt None vs with Some r => Ok r | None => Panic end
+                match pick Gt None vs with Some r => Ok r | None => Panic end
               else match vs with v :: _ => Ok v | [] => Ok (Int 0) end
     | AAvg => Ok (of_f (fdiv (fold_left (fun acc v => fadd acc (nf v)) vs fzero) (f64_of_Z (Z.of_nat len))))
     | AMed => if existsb (fun n => match n with Flt x => fis_nan x | Int _ => false end) vs then Ok (Flt fnan) else
